@@ -568,7 +568,19 @@ class Interp:
                 pass
             elif k == 'index':
                 iv = frame.cells[pr[1]].v
-                iv = self.concretize_int(iv)
+                try:
+                    iv = self.concretize_int(iv)
+                except Unsupported:
+                    # symbolic index into a table of concrete integers (e.g. an alphabet of bytes), read-only and last
+                    # projection: the element as an if-then-else term over the index (the bounds check precedes it in MIR)
+                    items = self.vec_items(load(Ptr(cell, path)))
+                    if pr is place.proj[-1] and items and all(isinstance(x, int) for x in items):
+                        zi = iv if z3.is_int(iv) else z3.BV2Int(iv)
+                        t = z3.IntVal(items[-1])
+                        for kk in range(len(items) - 2, -1, -1):
+                            t = z3.If(zi == kk, z3.IntVal(items[kk]), t)
+                        return Cell(t), ()
+                    raise
                 path = path + (('i', iv),)
             elif k == 'cindex':
                 if pr[2]:
